@@ -140,6 +140,64 @@ def _job(args):
         return {"seed": seed, "infra": "harness exception: " + traceback.format_exc()[-1500:]}
 
 
+def _absent_job(args):
+    try:
+        rules, ops = args
+        pol = busdiff.Policy([tuple(r) for r in rules])
+        steps, died, unique = busdiff.run_impl(ops, pol, None, "")
+        return {"diff": busdiff.compare(ops, pol, None, "", impl=(steps, died, unique)), "died": died, "rules": rules,
+                "ops": [busdiff.show_op(o) for o in ops]}
+    except InfraError as e:
+        return {"infra": str(e)}
+
+
+def absent_field_scenarios(ctx):
+    """one small history per (direction, attribute, verdict order): a rule naming a header field, as the last match over a rule of
+    the opposite verdict, against messages that carry that field with the named value, with another value, and not at all
+    (a call without INTERFACE, a method return / error without PATH, MEMBER, INTERFACE or - for the return - ERROR_NAME)"""
+    from ..bus import method_call, reply_msg, signal_msg, BUS_PATH
+    from concurrent.futures import ProcessPoolExecutor
+    hello = lambda: method_call(1, BUS, BUS_PATH, BUS, "Hello").marshal()
+    base = [("connect", 0, 0, False), ("send", 0, hello()), ("connect", 1, 0, False), ("send", 1, hello()), ("connect", 2, 0, False), ("send", 2, hello())]
+    jobs = []
+    for d in ("send", "receive"):
+        for attr, val in (("interface", "a.b"), ("member", "M"), ("path", "/open"), ("error", "a.E")):
+            for first_allow in (False, True):
+                for typ in ("method_call", "method_return", "error", "signal", None):
+                    first = {("%s_type" % d): typ} if typ else ({"send_destination": "*"} if d == "send" else {"receive_sender": "*"})
+                    named = dict(first); named["%s_%s" % (d, attr)] = val
+                    if attr == "member":
+                        named["%s_path" % d] = "/open"        # (the configuration parser wants an interface or a path next to a member)
+                    rules = [("default", True, {"user": "*"})] + busdiff.SESSION.rules + \
+                            [("default", first_allow, first), ("default", not first_allow, named)] + HARNESS
+                    ops = list(base)
+                    ops += [("send", 1, method_call(5, ":1.2", "/open", "a.b", "M").marshal()),        # everything named
+                            ("send", 1, method_call(6, ":1.2", "/open", None, "M").marshal()),         # no interface
+                            ("send", 1, method_call(7, ":1.2", "/other", "x.y", "N").marshal()),       # other values
+                            ("send", 2, reply_msg(3, 5, ":1.1").marshal()),                            # a return: no path, interface, member, error name
+                            ("send", 2, reply_msg(4, 6, ":1.1", error="a.E").marshal()),               # an error with the named name
+                            ("send", 2, reply_msg(5, 7, ":1.1", error="x.Other").marshal()),
+                            ("send", 1, signal_msg(8, "/open", "a.b", "M", dest=":1.2").marshal()),
+                            ("send", 1, signal_msg(9, "/other", "x.y", "N", dest=":1.2").marshal())]
+                    jobs.append((rules, ops))
+    with ProcessPoolExecutor(14) as ex:
+        res = list(ex.map(_absent_job, jobs, chunksize=2))
+    infra = [r for r in res if "infra" in r]
+    if len(infra) > 4:
+        raise InfraError("absent-field scenarios failed: " + infra[0]["infra"][:500])
+    bad = [r for r in res if "infra" not in r and (r["diff"] is not None or r["died"])]
+    for r in bad[:3]:
+        named = [x for x in r["rules"] if any(k.endswith(("_interface", "_member", "_path", "_error")) for k in x[2])]
+        ctx.violate("the daemon's decision differs from the documented evaluation for a rule naming a header field (%s): step %s" %
+                    (named[-1] if named else "?", (r["diff"] or {}).get("step")),
+                    {"kind": "bus-history", "label": "absent-fields", "seed": 0, "policy": r["rules"], "limits": None, "extra": "", "ops": r["ops"],
+                     "diff": r["diff"]}, failing_input=True)
+    ctx.oblige("correspondence (absent header fields): %d configurations (send/receive x interface/member/path/error x allow-after-deny/deny-after-allow x "
+               "message types) against messages with, without and with other values of the named field" % (len(res) - len(infra)), "correspondence", not bad)
+    ctx.coverage["evaluations"] = ctx.coverage.get("evaluations", 0) + sum(len(j[1]) for j in jobs)
+    ctx.coverage.setdefault("histories", {})["absent-fields"] = {"configurations": len(res) - len(infra), "ops_per_history": len(jobs[0][1])}
+
+
 def f16_scenario(ctx):
     """the recorded departure F16 on the real daemon: <deny send_path=...> also hits messages that have no path"""
     pol = busdiff.Policy([("default", True, {"user": "*"})] + busdiff.SESSION.rules +
@@ -193,6 +251,7 @@ def run(ctx):
         "access_denied_errors_observed": sum(r["denied"] for r in good), "deliveries_observed": sum(r["deliveries"] for r in good),
         "harness_failures": len(infra)}}
     ctx.coverage["evaluations"] = len(good) * L
+    absent_field_scenarios(ctx)
     diff, got_reply, refused = f16_scenario(ctx)
     ctx.oblige("F16 scenario: model = daemon on <deny send_path> against a reply without path", "correspondence", diff is None,
                json.dumps(diff)[:300] if diff else "")
